@@ -7,8 +7,10 @@
 package main
 
 import (
+	"encoding/json"
 	"errors"
 	"fmt"
+	"os"
 	"sort"
 	"strconv"
 	"strings"
@@ -23,20 +25,22 @@ import (
 )
 
 type Case struct {
-	ID       int       `json:"id"`
-	Kind     string    `json:"kind"`
-	Size     int       `json:"size"`
-	Interval int64     `json:"interval"`
-	T0       int64     `json:"t0"`
-	Ignore   bool      `json:"ignore"`
-	Limit    int       `json:"limit"`
-	ExpireMs int64     `json:"expire_ms"`
-	Ops      [][]any   `json:"ops"`
-	Bucket   string    `json:"bucket"`  // window: "sum" = the package's own Bucket[T] (Sum, Count)
-	Name     bool      `json:"name"`    // cache: WithName
-	Obj      string    `json:"obj"`     // lin: which structure
-	Pre      [][]any   `json:"pre"`     // lin: sequential prefix (results not recorded)
-	Threads  [][][]any `json:"threads"` // lin: one script per goroutine
+	ID         int       `json:"id"`
+	Kind       string    `json:"kind"`
+	Size       int       `json:"size"`
+	Interval   int64     `json:"interval"`
+	T0         int64     `json:"t0"`
+	Ignore     bool      `json:"ignore"`
+	Limit      int       `json:"limit"`
+	ExpireMs   int64     `json:"expire_ms"`
+	Ops        [][]any   `json:"ops"`
+	Bucket     string    `json:"bucket"`      // window: "sum" = the package's own Bucket[T] (Sum, Count)
+	Name       bool      `json:"name"`        // cache: WithName
+	ForceLimit bool      `json:"force_limit"` // cache: pass WithLimit even when the limit is 0
+	Twin       bool      `json:"twin"`        // a second instance of the same kind is driven alongside
+	Obj        string    `json:"obj"`         // lin: which structure
+	Pre        [][]any   `json:"pre"`         // lin: sequential prefix (results not recorded)
+	Threads    [][][]any `json:"threads"`     // lin: one script per goroutine
 }
 
 type Out struct {
@@ -56,7 +60,56 @@ type Ev struct {
 	Obs any   `json:"obs"`
 }
 
-func num(v any) int64 { return int64(v.(float64)) }
+// Numbers of a case are decoded as json.Number: times of the virtual clock exceed 2^53 and
+// must not pass through float64.
+func num(v any) int64 {
+	switch x := v.(type) {
+	case json.Number:
+		n, err := x.Int64()
+		if err != nil {
+			hx.Fatal("not an integer: %v", x)
+		}
+		return n
+	case float64:
+		return int64(x)
+	case int64:
+		return x
+	}
+	hx.Fatal("not a number: %v", v)
+	return 0
+}
+
+func readCases() []Case {
+	f, err := os.Open(os.Getenv("VERIF_IN"))
+	if err != nil {
+		hx.Fatal("read VERIF_IN: %v", err)
+	}
+	defer f.Close()
+	dec := json.NewDecoder(f)
+	dec.UseNumber()
+	var cases []Case
+	if err := dec.Decode(&cases); err != nil {
+		hx.Fatal("parse VERIF_IN: %v", err)
+	}
+	return cases
+}
+
+// Sentinel data: the number 0 of a case stands for Go's nil (as a value, an element, a SafeMap
+// key) - a legal value that sloppy code confuses with "absent"; presence is always reported by
+// the ok / found result, never by comparing with nil.
+func val(v any) any {
+	if n := num(v); n != 0 {
+		return n
+	}
+	return nil
+}
+
+func unval(v any) int64 {
+	if v == nil {
+		return 0
+	}
+	return v.(int64)
+}
 
 // a stepper applies one operation to one object and returns its observation (nil = none)
 type stepper func(op []any) any
@@ -150,18 +203,18 @@ func safeMapStepper(c Case) stepper {
 	return func(op []any) any {
 		switch op[0].(string) {
 		case "set":
-			m.Set(num(op[1]), num(op[2]))
+			m.Set(val(op[1]), val(op[2]))
 		case "get":
-			v, ok := m.Get(num(op[1]))
-			return opt(v, ok)
+			v, ok := m.Get(val(op[1]))
+			return opt(unval(v), ok)
 		case "del":
-			m.Del(num(op[1]))
+			m.Del(val(op[1]))
 		case "size":
 			return []any{"num", m.Size()}
 		case "range":
 			ps := [][2]int64{}
 			m.Range(func(k, v any) bool {
-				ps = append(ps, [2]int64{k.(int64), v.(int64)})
+				ps = append(ps, [2]int64{unval(k), unval(v)})
 				return true
 			})
 			sortPairs(ps)
@@ -171,25 +224,25 @@ func safeMapStepper(c Case) stepper {
 			n := num(op[1])
 			ps := [][2]int64{}
 			m.Range(func(k, v any) bool {
-				ps = append(ps, [2]int64{k.(int64), v.(int64)})
+				ps = append(ps, [2]int64{unval(k), unval(v)})
 				return int64(len(ps)) < n
 			})
 			return []any{"pairs", ps}
 		case "setseq":
 			k0, n, v := num(op[1]), num(op[2]), num(op[3])
 			for i := int64(0); i < n; i++ {
-				m.Set(k0+i, v)
+				m.Set(val(k0+i), val(v))
 			}
 		case "delseq":
 			k0, n := num(op[1]), num(op[2])
 			for i := int64(0); i < n; i++ {
-				m.Del(k0 + i)
+				m.Del(val(k0 + i))
 			}
 		case "churn":
 			k, v, n := num(op[1]), num(op[2]), num(op[3])
 			for i := int64(0); i < n; i++ {
-				m.Set(k, v)
-				m.Del(k)
+				m.Set(val(k), val(v))
+				m.Del(val(k))
 			}
 		}
 		return nil
@@ -203,10 +256,10 @@ func queueStepper(c Case) stepper {
 	return func(op []any) any {
 		switch op[0].(string) {
 		case "put":
-			q.Put(num(op[1]))
+			q.Put(val(op[1]))
 		case "take":
 			v, ok := q.Take()
-			return opt(v, ok)
+			return opt(unval(v), ok)
 		case "empty":
 			return []any{"bool", q.Empty()}
 		}
@@ -216,14 +269,42 @@ func queueStepper(c Case) stepper {
 
 func ringStepper(c Case) stepper {
 	r := collection.NewRing(c.Size)
+	// what an earlier Take returned belongs to the caller: it must not change when the ring
+	// moves on, and scribbling on it must not change the ring
+	var mu sync.Mutex
+	var kept []any
+	var keptCopy []int64
 	return func(op []any) any {
 		switch op[0].(string) {
 		case "add":
-			r.Add(num(op[1]))
+			r.Add(val(op[1]))
 		case "take":
+			res := r.Take()
 			vs := []int64{}
-			for _, v := range r.Take() {
-				vs = append(vs, v.(int64))
+			for _, v := range res {
+				vs = append(vs, unval(v))
+			}
+			mu.Lock()
+			stale := false
+			for i, v := range kept {
+				if unval(v) != keptCopy[i] {
+					stale = true
+				}
+			}
+			kept, keptCopy = res, append([]int64(nil), vs...)
+			mu.Unlock()
+			if stale {
+				return []any{"num", -424245} // an earlier result was modified behind the caller's back
+			}
+			if c.Ignore { // scribble on the result just returned (the copy above is already taken)
+				for i := range res {
+					res[i] = int64(-7)
+				}
+				mu.Lock()
+				for i := range keptCopy {
+					keptCopy[i] = -7
+				}
+				mu.Unlock()
 			}
 			return []any{"list", vs}
 		}
@@ -247,6 +328,9 @@ func decodeKey(k int64) any {
 	case 4:
 		return uint64(v)
 	default:
+		if v == 0 {
+			return "" // the empty string is a key like any other
+		}
 		return strconv.FormatInt(v, 10)
 	}
 }
@@ -262,6 +346,9 @@ func encodeKey(k any) int64 {
 	case uint64:
 		return 4*tagShift + int64(x)
 	case string:
+		if x == "" {
+			return 3 * tagShift
+		}
 		n, _ := strconv.ParseInt(x, 10, 64)
 		return 3*tagShift + n
 	}
@@ -350,12 +437,18 @@ func setStepper(c Case) stepper {
 
 var errFetch = errors.New("fetch failed")
 
-func ckey(v any) string { return "k" + strconv.FormatInt(num(v), 10) }
+// key 0 is the empty string
+func ckey(v any) string {
+	if num(v) == 0 {
+		return ""
+	}
+	return "k" + strconv.FormatInt(num(v), 10)
+}
 
 func newCache(c Case, expire time.Duration) (*collection.Cache, error) {
 	var opts []collection.CacheOption
-	if c.Limit != 0 {
-		opts = append(opts, collection.WithLimit(c.Limit))
+	if c.Limit != 0 || c.ForceLimit {
+		opts = append(opts, collection.WithLimit(c.Limit)) // <= 0 means "no limit"
 	}
 	if c.Name {
 		opts = append(opts, collection.WithName("c16"))
@@ -366,7 +459,10 @@ func newCache(c Case, expire time.Duration) (*collection.Cache, error) {
 func heldKeys(cache *collection.Cache) []int64 {
 	ks := []int64{}
 	for _, k := range collection.VerifC16CacheHeld(cache) {
-		n, _ := strconv.ParseInt(strings.TrimPrefix(k, "k"), 10, 64)
+		n := int64(0)
+		if k != "" {
+			n, _ = strconv.ParseInt(strings.TrimPrefix(k, "k"), 10, 64)
+		}
 		ks = append(ks, n)
 	}
 	return sorted(ks)
@@ -374,34 +470,38 @@ func heldKeys(cache *collection.Cache) []int64 {
 
 // operations common to every cache kind; ok = false when op is not one of them
 func cacheOp(cache *collection.Cache, op []any) (obs any, ok bool) {
+	var nested func()
 	take := func() any {
 		called := false
 		v, err := cache.Take(ckey(op[1]), func() (any, error) {
 			called = true
+			if nested != nil {
+				nested()
+			}
 			if op[2] == nil {
 				return nil, errFetch
 			}
-			return num(op[2]), nil
+			return val(op[2]), nil
 		})
 		if err != nil {
-			if err != errFetch {
-				return []any{"num", -424244} // an error that is not the loader's
+			if err != errFetch || v != nil {
+				return []any{"num", -424244} // an error that is not the loader's / a value with an error
 			}
 			return []any{"take", nil, called}
 		}
-		return []any{"take", v, called}
+		return []any{"take", unval(v), called}
 	}
 	switch op[0].(string) {
 	case "set":
 		if len(op) > 3 {
-			cache.SetWithExpire(ckey(op[1]), num(op[2]), time.Duration(num(op[3]))*time.Millisecond)
+			cache.SetWithExpire(ckey(op[1]), val(op[2]), time.Duration(num(op[3]))*time.Millisecond)
 		} else {
-			cache.Set(ckey(op[1]), num(op[2]))
+			cache.Set(ckey(op[1]), val(op[2]))
 		}
 		return nil, true
 	case "get":
 		v, ok := cache.Get(ckey(op[1]))
-		return opt(v, ok), true
+		return opt(unval(v), ok), true
 	case "del":
 		cache.Del(ckey(op[1]))
 		return nil, true
@@ -409,10 +509,17 @@ func cacheOp(cache *collection.Cache, op []any) (obs any, ok bool) {
 		return take(), true
 	case "take_race":
 		// between this Take's miss and its single flight "another goroutine" stores the key
-		collection.VerifC16BeforeFlight(cache, func(key string) { cache.Set(key, num(op[3])) })
+		ran := false
+		collection.VerifC16BeforeFlight(cache, func(key string) { ran = true; cache.Set(key, val(op[3])) })
 		r := take()
 		collection.VerifC16BeforeFlight(cache, nil)
-		return r, true
+		return append(r.([]any), ran), true
+	case "take_nested":
+		// the loader itself uses the cache (another key) before it returns
+		ran := false
+		nested = func() { ran = true; cache.Set(ckey(op[3]), val(op[4])) }
+		r := take()
+		return append(r.([]any), ran), true
 	case "held": // keys of c.data, read without touching the recency order
 		return []any{"list", heldKeys(cache)}, true
 	case "size": // Cache.size(), the callback of the stat loop
@@ -442,8 +549,12 @@ func runCache(c Case, out *Out, realtime bool) {
 		out.Err = err.Error()
 		return
 	}
+	var decoy *collection.Cache
+	if c.Twin {
+		decoy, _ = newCache(c, expire)
+	}
 	start := time.Now()
-	for _, op := range c.Ops {
+	for i, op := range c.Ops {
 		if realtime {
 			out.At = append(out.At, time.Since(start).Milliseconds())
 		}
@@ -453,6 +564,11 @@ func runCache(c Case, out *Out, realtime bool) {
 		}
 		if r, _ := cacheOp(cache, op); r != nil {
 			out.Obs = append(out.Obs, r)
+		}
+		if decoy != nil {
+			if d := c.Ops[(i*7+3)%len(c.Ops)]; d[0].(string) != "sleep" {
+				cacheOp(decoy, d)
+			}
 		}
 	}
 }
@@ -545,7 +661,7 @@ func runCacheTake2(c Case, out *Out) {
 				called = true
 				close(entered)
 				<-gate
-				return num(op[2]), nil
+				return val(op[2]), nil
 			})
 			ra <- res{v, err, called}
 		}()
@@ -559,7 +675,7 @@ func runCacheTake2(c Case, out *Out) {
 			called := false
 			v, err := cache.Take(k, func() (any, error) {
 				called = true
-				return num(op[3]), nil
+				return val(op[3]), nil
 			})
 			rb <- res{v, err, called}
 		}()
@@ -588,8 +704,8 @@ func runCacheTake2(c Case, out *Out) {
 			out.Err = "take2: unexpected error"
 			return
 		}
-		out.Obs = append(out.Obs, []any{"take", a.v, a.called})
-		out.Pair = map[string]any{"b_val": b.v, "b_called": b.called, "b_blocked": blocked}
+		out.Obs = append(out.Obs, []any{"take", unval(a.v), a.called})
+		out.Pair = map[string]any{"b_val": unval(b.v), "b_called": b.called, "b_blocked": blocked}
 	}
 }
 
@@ -619,9 +735,20 @@ func runSeq(c Case, out *Out) {
 		out.Err = err.Error()
 		return
 	}
-	for _, op := range c.Ops {
+	// a second, independent instance is fed other operations of the same history in between:
+	// nothing it does may show in the first one
+	var decoy stepper
+	if c.Twin {
+		decoy, _ = makeStepper(c.Kind, c)
+	}
+	for i, op := range c.Ops {
 		if r := st(op); r != nil {
 			out.Obs = append(out.Obs, r)
+		}
+		if decoy != nil {
+			if d := c.Ops[(i*7+3)%len(c.Ops)]; c.Kind != "window" || num(d[1]) >= num(op[1]) {
+				decoy(d)
+			}
 		}
 	}
 }
@@ -713,8 +840,7 @@ func runCase(c Case) (out Out) {
 
 func main() {
 	logx.Disable()
-	var cases []Case
-	hx.ReadCases(&cases)
+	cases := readCases()
 	w := hx.NewWriter()
 	defer w.Close()
 	res := make([]Out, len(cases))
@@ -730,8 +856,16 @@ func main() {
 			}(i, c)
 		}
 	}
+	// kinds that poll the goroutine stacks go first: every cache leaves two goroutines behind
+	// (wheel loop, stat loop) and a stack dump is linear in the number of goroutines
+	polls := func(k string) bool { return k == "cachew" || k == "cache_take2" }
 	for i, c := range cases {
-		if c.Kind != "cache_rt" {
+		if polls(c.Kind) {
+			res[i] = runCase(c)
+		}
+	}
+	for i, c := range cases {
+		if c.Kind != "cache_rt" && !polls(c.Kind) {
 			res[i] = runCase(c)
 		}
 	}
